@@ -213,7 +213,9 @@ func EdgeOf(v any) *sbom.Edge {
 
 func NLOf(v any) *sbom.NodeList {
 	m := v.(M)
-	nl := &sbom.NodeList{}
+	// as NewNodeList() makes them: empty, not nil, slices (operations that tell the two apart have
+	// the nil form in the operands that went through Copy(), see "alloc", and in "nilA")
+	nl := &sbom.NodeList{Nodes: []*sbom.Node{}, Edges: []*sbom.Edge{}, RootElements: []string{}}
 	for _, n := range asList(m["nodes"]) {
 		nl.Nodes = append(nl.Nodes, NodeOf(n))
 	}
@@ -364,6 +366,10 @@ func NLJ(nl *sbom.NodeList) any {
 func NodesJ(l []*sbom.Node) any {
 	out := []any{}
 	for _, n := range l {
+		if n == nil {
+			out = append(out, "nil-node") // a lookup that answers with a nil element: not a node of the list
+			continue
+		}
 		out = append(out, NodeJ(n))
 	}
 	return out
